@@ -138,7 +138,7 @@ let showknown = ref false
 
 (* the model's observation; `fixedlim` is C12's repair of state() (Ok path) - irrelevant to failure reports,
    so an implementation observation equal to the model under either setting is accepted *)
-let eval_case (case : string) (fixedlim : bool) : string =
+let eval_case_fuel (case : string) (fixedlim : bool) (fuel_n : int) : string =
   let ki = find_key case " in=" and ke = find_key case " env=" and kp = find_key case " prog=" in
   let head = String.sub case 0 ki in
   let lim = ref None and det = ref false in
@@ -151,7 +151,7 @@ let eval_case (case : string) (fixedlim : bool) : string =
   let env (f : nat) = let i = int_of_nat f in if i < Array.length envl then Some envl.(i) else None in
   let prog = prog_of_string (String.sub case (kp + 6) (String.length case - kp - 6)) in
   let cfg = { memchr = !memchr_on; fixed3 = !fixed3; fixedlim = fixedlim } in
-  let fuel = nat_of_int 500 in
+  let fuel = nat_of_int fuel_n in
   match run_state_log cfg env fuel prog input !lim !det with
   | (RPanic _, _) -> "Panic"
   | (ROutOfFuel, _) -> "Diverged"
@@ -160,9 +160,15 @@ let eval_case (case : string) (fixedlim : bool) : string =
     show_forest b log;
     Printf.sprintf "%s log=%s || %s" (match r with ROk _ -> "Ok" | _ -> "Err") (Buffer.contents b) (outcome_string (outcome_of cfg r))
 
+(* fuel 500 suffices for the generated cases; a model run that exhausts it is repeated with more before it is compared *)
+let eval_case (case : string) (fixedlim : bool) : string =
+  let m = eval_case_fuel case fixedlim 500 in
+  if m = "Diverged" then eval_case_fuel case fixedlim 5000 else m
+
 (* ---- the specification evaluated on the implementation's own forest and error ---- *)
 let known = ref 0
 let spec_checked = ref 0
+let skipped = ref 0
 
 let check_spec (case : string) (impl : string) : unit =
   (* impl = "Err log=<forest> || PE:[..]:[..]@p" *)
@@ -212,6 +218,8 @@ let () =
     | ["VMDIFF"; case; vm; pr] -> report "vm" case vm pr
     | [case; impl] ->
       incr n;
+      (* "Diverged" on the Rust side = its closure-invocation budget ran out (nothing to compare: the model bounds depth, not work) *)
+      if impl = "Diverged" then incr skipped else
       let m = (try eval_case case false with Failure e -> "RUNNER-ERROR " ^ e | Stack_overflow -> "Diverged") in
       if m <> impl then begin
         let m2 = (try eval_case case true with Failure e -> "RUNNER-ERROR " ^ e | Stack_overflow -> "Diverged") in
@@ -220,4 +228,4 @@ let () =
       (try if String.length impl > 4 && String.sub impl 0 4 = "Err " then check_spec case impl
        with Failure e -> report "spec" case impl ("RUNNER-ERROR " ^ e) | Not_found -> report "spec" case impl "RUNNER-ERROR parse")
     | _ -> ());
-  Printf.printf "#RUNNER\tcases=%d\tmismatches=%d\tspec_checked=%d\tknown_class=%d\n" !n !mismatches !spec_checked !known
+  Printf.printf "#RUNNER\tcases=%d\tmismatches=%d\tspec_checked=%d\tknown_class=%d\tbudget_skipped=%d\n" !n !mismatches !spec_checked !known !skipped
